@@ -4,8 +4,6 @@ import (
 	"context"
 	"encoding/json"
 	"fmt"
-	"io"
-	"log"
 	"math/big"
 	"sort"
 	"sync"
@@ -15,7 +13,6 @@ import (
 
 	ocr2keepersv2 "github.com/smartcontractkit/chainlink-automation/pkg/v2"
 	"github.com/smartcontractkit/chainlink-automation/pkg/v2/coordinator"
-	"github.com/smartcontractkit/chainlink-automation/pkg/v2/encoding"
 )
 
 // C17 — OCR2 (v2) report coordinator: lockout until the right log, convergent across orderings.
@@ -26,6 +23,11 @@ import (
 // BasicEncoder, started: own 1 s poller and both cache cleaners) inside a synctest
 // bubble.  Logs reach the coordinator only through its poller (fake LogProvider).
 // Harness operations happen at ≡137 ms (mod 1 s) of virtual time, polls at ≡0.
+//
+// Two ways of driving it (Input.Via): "coord" = the coordinator alone, Accept called directly; "plugin" = the v2 plugin
+// from its public factory around the same coordinator and the real PollingObserver (c17_plugin_test.go): accepts are
+// finalized reports (one or several keys), and heads, Observe()/Observation(), Report() and
+// ShouldTransmitAcceptedReport are interleaved with them, several observes per staged head.
 
 type c17Cfg struct {
 	Lockout  int64 `json:"lockout"`  // ns, constructor argument (<1 → default 20 min)
@@ -33,10 +35,27 @@ type c17Cfg struct {
 	Clean    int64 `json:"clean"`    // ns, cache-clean interval (off the poll grid)
 }
 type c17Op struct {
-	T     string `json:"t"` // "a" accept, "p" perform log, "s" stale report log
-	Key   string `json:"key"`
-	TB    string `json:"tb"`
-	Confs int64  `json:"confs"`
+	// "a" accept one key, "p" perform log, "s" stale report log; plugin mode only: "A" accept a report of Keys,
+	// "h" head Block with Active ids of which Ids are eligible, "o" Observe()+Observation(),
+	// "x" ShouldTransmitAcceptedReport(Keys), "r" Report on observations (Block, [id]) for id in Ids
+	T      string   `json:"t"`
+	Key    string   `json:"key"`
+	TB     string   `json:"tb"`
+	Confs  int64    `json:"confs"`
+	Keys   []string `json:"keys,omitempty"`
+	Block  string   `json:"block,omitempty"`
+	Active []string `json:"active,omitempty"`
+	Ids    []string `json:"ids,omitempty"`
+}
+
+// c17Out is the answer of one operation (zero for operations without answer).
+type c17Out struct {
+	Flag   bool     `json:"flag"`
+	Err    bool     `json:"err"`
+	Block  string   `json:"block"`
+	Ids    []string `json:"ids"`
+	PBlock string   `json:"pblock"`
+	Pick   []string `json:"pick"`
 }
 type c17RunIn struct {
 	Ops   []c17Op `json:"ops"`
@@ -51,6 +70,7 @@ type c17RunIn struct {
 }
 type c17Input struct {
 	Cfg    c17Cfg     `json:"cfg"`
+	Via    string     `json:"via"` // "coord" (default) | "plugin"
 	Probes []string   `json:"probes"`
 	CKeys  []string   `json:"ckeys"`
 	Runs   []c17RunIn `json:"runs"`
@@ -63,6 +83,7 @@ type c17RunOut struct {
 	Times  []int64    `json:"times"`  // virtual ns since bubble start at which op i was processed
 	Points [][2]int64 `json:"points"` // (number of ops processed, virtual ns of the probe)
 	Obs    []c17Obs   `json:"obs"`
+	Outs   []c17Out   `json:"outs"` // answer of op i
 	Note   string     `json:"note,omitempty"`
 }
 type c17Impl struct {
@@ -99,17 +120,52 @@ func (f *c17Logs) StaleReportLogs(context.Context) ([]ocr2keepersv2.StaleReportL
 const c17Second = int64(time.Second)
 const c17Offset = 137 * int64(time.Millisecond)
 
-// c17RunOne executes one ordering on a fresh coordinator; must be called inside a bubble.
+// c17AccKeys are the keys an accepting operation registers (a report's accept loop stops at the first unparsable key).
+func (o c17Op) accKeys() []string {
+	switch o.T {
+	case "a":
+		return []string{o.Key}
+	case "A":
+		out := []string{}
+		for _, k := range o.Keys {
+			out = append(out, k)
+			if _, _, ok := c17SplitKey(k); !ok {
+				break
+			}
+		}
+		return out
+	}
+	return nil
+}
+
+func (o c17Op) isLog() bool { return o.T == "p" || o.T == "s" }
+
+// c17RunOne executes one ordering on a fresh coordinator / plugin; must be called inside a bubble.
 func c17RunOne(in c17Input, r c17RunIn) (out c17RunOut) {
 	start := time.Now()
 	logs := &c17Logs{start: start}
-	rc := coordinator.NewReportCoordinator(time.Duration(in.Cfg.Lockout), time.Duration(in.Cfg.Clean), logs,
-		in.Cfg.MinConfs, log.New(io.Discard, "", 0), encoding.BasicEncoder{})
-	rc.Start()
+	out.Times = make([]int64, len(r.Ops))
+	out.Points = [][2]int64{}
+	out.Obs = []c17Obs{}
+	out.Outs = make([]c17Out, len(r.Ops))
+	for i := range out.Outs {
+		out.Outs[i] = c17Out{Ids: []string{}, Pick: []string{}}
+	}
+	node, err := c17NewNode(in, logs)
+	if err != nil {
+		out.Note = "setup: " + err.Error()
+		return out
+	}
+	rc := node.coord
 	defer func() {
-		rc.Close()
+		node.close()
 		synctest.Wait()
 	}()
+	note := func(s string) {
+		if s != "" && out.Note == "" {
+			out.Note = s
+		}
+	}
 	since := func() int64 { return int64(time.Since(start)) }
 	clean := in.Cfg.Clean
 	if clean < 1 {
@@ -135,9 +191,6 @@ func c17RunOne(in c17Input, r c17RunIn) (out c17RunOut) {
 		out.Points = append(out.Points, [2]int64{int64(n), since()})
 		out.Obs = append(out.Obs, o)
 	}
-	out.Times = make([]int64, len(r.Ops))
-	out.Points = [][2]int64{}
-	out.Obs = []c17Obs{}
 	time.Sleep(time.Duration(c17Offset))
 	synctest.Wait()
 	i := 0
@@ -148,16 +201,18 @@ func c17RunOne(in c17Input, r c17RunIn) (out c17RunOut) {
 		}
 		offGrid()
 		op := r.Ops[i]
-		if op.T == "a" {
-			_ = rc.Accept(ocr2keepersv2.UpkeepKey(op.Key))
+		if !op.isLog() {
 			out.Times[i] = since()
+			o, nt := node.do(i, op, synctest.Wait)
+			out.Outs[i] = o
+			note(nt)
 			i++
 		} else {
 			// one poll: a maximal run perform* stale* of batched positions
 			j := i
 			seenStale := false
 			logs.mu.Lock()
-			for j < len(r.Ops) && r.Ops[j].T != "a" && (j == i || r.Batch[j]) {
+			for j < len(r.Ops) && r.Ops[j].isLog() && (j == i || r.Batch[j]) {
 				o := r.Ops[j]
 				if o.T == "p" {
 					if seenStale {
@@ -179,7 +234,7 @@ func c17RunOne(in c17Input, r c17RunIn) (out c17RunOut) {
 			synctest.Wait()
 			logs.mu.Lock()
 			if len(logs.pPolls) != n0+1 || len(logs.sPolls) != n0+1 || len(logs.performs) != 0 || len(logs.stales) != 0 {
-				out.Note = fmt.Sprintf("poll accounting: %d perform polls, %d stale polls since %d", len(logs.pPolls), len(logs.sPolls), n0)
+				note(fmt.Sprintf("poll accounting: %d perform polls, %d stale polls since %d", len(logs.pPolls), len(logs.sPolls), n0))
 			}
 			at := logs.pPolls[len(logs.pPolls)-1]
 			logs.mu.Unlock()
@@ -240,33 +295,36 @@ func c17SplitKey(k string) (string, string, bool) {
 	return k[:at], k[at+1:], true
 }
 
-// c17Admissible permutes ops at random, then moves, for every key, its first accept in
-// front of all its logs (ops without an accept for their key keep their random place).
+// c17Admissible returns a random ordering of ops in which every log comes after the first accept of its key
+// (logs of keys that are accepted nowhere, and all other operations, are free): a random linear extension.
 func c17Admissible(r *Rng, ops []c17Op) []c17Op {
-	p := r.Perm(len(ops))
-	out := make([]c17Op, len(ops))
-	for i, j := range p {
-		out[i] = ops[j]
-	}
-	byKey := map[string][]int{}
-	var keys []string
-	for i, o := range out {
-		if _, ok := byKey[o.Key]; !ok {
-			keys = append(keys, o.Key)
+	all := map[string]bool{}
+	for _, o := range ops {
+		for _, k := range o.accKeys() {
+			all[k] = true
 		}
-		byKey[o.Key] = append(byKey[o.Key], i)
 	}
-	for _, k := range keys {
-		pos := byKey[k]
-		if out[pos[0]].T == "a" {
-			continue
-		}
-		for _, q := range pos[1:] {
-			if out[q].T == "a" {
-				out[pos[0]], out[q] = out[q], out[pos[0]]
-				break
+	acc := map[string]bool{}
+	left := make([]int, len(ops))
+	for i := range left {
+		left[i] = i
+	}
+	out := make([]c17Op, 0, len(ops))
+	for len(left) > 0 {
+		var enabled []int // positions in left
+		for q, i := range left {
+			o := ops[i]
+			if !o.isLog() || !all[o.Key] || acc[o.Key] {
+				enabled = append(enabled, q)
 			}
 		}
+		q := enabled[r.Intn(len(enabled))]
+		o := ops[left[q]]
+		for _, k := range o.accKeys() {
+			acc[k] = true
+		}
+		out = append(out, o)
+		left = append(left[:q:q], left[q+1:]...)
 	}
 	return out
 }
@@ -303,17 +361,30 @@ func c17Probes(ops []c17Op, extra []string) (probes, ckeys []string) {
 	var marks []*big.Int
 	seenKey := map[string]bool{}
 	for _, o := range ops {
-		if !seenKey[o.Key] {
-			seenKey[o.Key] = true
-			ckeys = append(ckeys, o.Key)
-		}
-		if b, id, ok := c17SplitKey(o.Key); ok {
-			if !seenID[id] {
-				seenID[id] = true
-				ids = append(ids, id)
-			}
-			if v := c17Big(b); v != nil {
+		var ks []string
+		switch o.T {
+		case "a", "p", "s":
+			ks = []string{o.Key}
+		case "A", "x":
+			ks = o.Keys
+		case "h", "r":
+			if v := c17Big(o.Block); v != nil {
 				marks = append(marks, v)
+			}
+		}
+		for _, k := range ks {
+			if !seenKey[k] {
+				seenKey[k] = true
+				ckeys = append(ckeys, k)
+			}
+			if b, id, ok := c17SplitKey(k); ok {
+				if !seenID[id] {
+					seenID[id] = true
+					ids = append(ids, id)
+				}
+				if v := c17Big(b); v != nil {
+					marks = append(marks, v)
+				}
 			}
 		}
 		if o.T == "p" {
@@ -364,7 +435,13 @@ func c17Gen(r *Rng, em *Emitter) c17Input {
 	case x < 26:
 		kind = c17Expiry
 	}
-	in.Cfg.MinConfs = r.Range(0, 3)
+	if r.Chance(65) {
+		in.Via = "plugin"
+	} else {
+		in.Via = "coord"
+	}
+	plugin := in.Via == "plugin"
+	in.Cfg.MinConfs = r.Range(-1, 3)
 	in.Cfg.Clean = 29_870_000_007
 	if r.Chance(30) {
 		in.Cfg.Clean = 7_330_000_003
@@ -386,6 +463,9 @@ func c17Gen(r *Rng, em *Emitter) c17Input {
 		default:
 			in.Cfg.Lockout = int64(r.Range(50, 90))*c17Second + 500_000_013
 		}
+	}
+	if plugin {
+		in.Cfg.Lockout -= in.Cfg.Lockout % int64(time.Millisecond) // the off-chain config carries milliseconds
 	}
 
 	// ids and check blocks
@@ -449,13 +529,84 @@ func c17Gen(r *Rng, em *Emitter) c17Input {
 	var ops []c17Op
 	accepted := map[string]bool{}
 	var performed []c17Op
+	maxBlock := c17Big("18446744073709551615")
+	nearBlock := func() string {
+		b := new(big.Int).Add(base, big.NewInt(int64(r.Range(0, 9))))
+		if b.Cmp(maxBlock) > 0 {
+			b = maxBlock
+		}
+		return b.String()
+	}
+	headOp := func() c17Op {
+		o := c17Op{T: "h", Block: nearBlock(), Active: []string{}, Ids: []string{}}
+		if r.Chance(6) {
+			return o // empty registry: nothing is staged
+		}
+		o.Active = append(o.Active, ids...)
+		if r.Chance(40) {
+			o.Active = append(o.Active, "31337") // active but never eligible
+		}
+		for _, id := range ids {
+			if r.Chance(85) {
+				o.Ids = append(o.Ids, id)
+			}
+		}
+		return o
+	}
+	someKeys := func(lo, hi int) []string {
+		m := r.Range(lo, hi)
+		out := make([]string, 0, m)
+		for i := 0; i < m; i++ {
+			out = append(out, keys[r.Intn(len(keys))].key)
+		}
+		return out
+	}
+	if plugin && r.Chance(75) {
+		ops = append(ops, headOp())
+	}
 	for len(ops) < n {
 		k := keys[r.Intn(len(keys))]
+		if plugin && r.Chance(36) {
+			switch y := r.Intn(100); {
+			case y < 20:
+				ops = append(ops, headOp())
+			case y < 55:
+				ops = append(ops, c17Op{T: "o"})
+			case y < 70:
+				ks := someKeys(1, 3)
+				if r.Chance(15) {
+					ks = append(ks, c17Key(nearBlock(), "424242"))
+				}
+				ops = append(ops, c17Op{T: "x", Keys: ks})
+			case y < 85:
+				o := c17Op{T: "r", Block: nearBlock(), Ids: []string{}}
+				for i, m := 0, r.Range(1, 4); i < m; i++ {
+					o.Ids = append(o.Ids, ids[r.Intn(len(ids))])
+				}
+				ops = append(ops, o)
+			default:
+				ks := someKeys(2, 3)
+				ops = append(ops, c17Op{T: "A", Keys: ks})
+				for _, kk := range ks {
+					accepted[kk] = true
+				}
+				if r.Chance(50) {
+					ops = append(ops, c17Op{T: "o"})
+				}
+			}
+			continue
+		}
 		x := r.Intn(100)
 		switch {
 		case x < 34 || (!accepted[k.key] && x < 80):
+			if plugin && r.Chance(35) {
+				ops = append(ops, c17Op{T: "o"}) // the staged head is asked before ...
+			}
 			ops = append(ops, c17Op{T: "a", Key: k.key})
 			accepted[k.key] = true
+			if plugin && r.Chance(55) {
+				ops = append(ops, c17Op{T: "o"}) // ... and again right after the accept
+			}
 		case x < 62:
 			o := c17Op{T: "p", Key: k.key, TB: transmit(k), Confs: confs()}
 			ops = append(ops, o)
@@ -519,6 +670,21 @@ func c17Gen(r *Rng, em *Emitter) c17Input {
 			func(k kinfo) c17Op { return c17Op{T: "a", Key: c17Key("", k.id)} },
 			func(k kinfo) c17Op { return c17Op{T: "a", Key: c17Key(k.blk, "")} },
 		}
+		if plugin {
+			bad = append(bad,
+				// a report whose middle key does not parse: the keys after it are never registered
+				func(k kinfo) c17Op { return c17Op{T: "A", Keys: []string{k.key, "abc", keys[0].key}} },
+				func(k kinfo) c17Op { return c17Op{T: "A", Keys: []string{k.key + "|9", k.key}} },
+				func(k kinfo) c17Op { return c17Op{T: "A", Keys: []string{}} },
+				func(k kinfo) c17Op { return c17Op{T: "x", Keys: []string{}} },
+				func(k kinfo) c17Op { return c17Op{T: "x", Keys: []string{"abc", k.key}} },
+				func(k kinfo) c17Op { return c17Op{T: "h", Block: "0" + k.blk, Active: ids, Ids: ids} },
+				func(k kinfo) c17Op { return c17Op{T: "h", Block: "abc", Active: ids, Ids: ids} },
+				func(k kinfo) c17Op {
+					return c17Op{T: "h", Block: k.blk, Active: append([]string{"5|9"}, ids...), Ids: append([]string{"5|9"}, ids...)}
+				},
+			)
+		}
 		m := r.Range(1, 4)
 		for i := 0; i < m; i++ {
 			o := bad[r.Intn(len(bad))](keys[r.Intn(len(keys))])
@@ -527,8 +693,8 @@ func c17Gen(r *Rng, em *Emitter) c17Input {
 		}
 		extraProbes = []string{"", "7", "7|5|9", c17Key("abc", ids[0]), c17Key("07", ids[0]), c17Key("-1", ids[0]),
 			c17Key("18446744073709551616", ids[0]), c17Key("18446744073709551617", ids[0])}
-		if len(ops) > 30 {
-			ops = ops[:30]
+		if len(ops) > 34 {
+			ops = ops[:34]
 		}
 	}
 	in.Probes, in.CKeys = c17Probes(ops, extraProbes)
@@ -577,6 +743,7 @@ func c17Gen(r *Rng, em *Emitter) c17Input {
 		in.Runs = append(in.Runs, mk(c17Admissible(r, ops), false))
 	}
 	em.Hit([]string{"kind:plain", "kind:adversarial", "kind:expiry"}[kind])
+	em.Hit("via:" + in.Via)
 	em.Hit(fmt.Sprintf("ops=%d", (len(ops)/5)*5))
 	em.Hit(fmt.Sprintf("minConfs=%d", in.Cfg.MinConfs))
 	em.Hit(fmt.Sprintf("ids=%d", len(ids)))
@@ -609,7 +776,33 @@ func c17Edge() []c17Input {
 	a := func(k string) c17Op { return c17Op{T: "a", Key: k} }
 	p := func(k, tb string, c int64) c17Op { return c17Op{T: "p", Key: k, TB: tb, Confs: c} }
 	s := func(k string, c int64) c17Op { return c17Op{T: "s", Key: k, TB: "99", Confs: c} }
-	return []c17Input{
+	// through the plugin
+	mkp := func(lockoutMs int64, minConfs int, ops []c17Op, perms ...[]int) c17Input {
+		in := mk(lockoutMs*int64(time.Millisecond), minConfs, 0, ops, perms...)
+		in.Via = "plugin"
+		return in
+	}
+	h := func(b string, ids ...string) c17Op { return c17Op{T: "h", Block: b, Active: ids, Ids: ids} }
+	o := c17Op{T: "o"}
+	A := func(ks ...string) c17Op { return c17Op{T: "A", Keys: ks} }
+	x := func(ks ...string) c17Op { return c17Op{T: "x", Keys: ks} }
+	rp := func(b string, ids ...string) c17Op { return c17Op{T: "r", Block: b, Ids: ids} }
+	plug := []c17Input{
+		// one staged head, observed before and (twice) after one of its ids is accepted, then after the perform
+		mkp(0, 0, []c17Op{h("10", "1", "2"), o, a("10|1"), o, o, p("10|1", "12", 0), o, h("13", "1", "2"), o}),
+		// the only staged id gets locked: the observation must become empty on the same head
+		mkp(0, 0, []c17Op{h("10", "1"), o, A("10|1"), o, x("10|1"), s("10|1", 0), o, x("10|1"), h("12", "1"), o}),
+		// second key of an upkeep accepted while the first still locks it; only the first key's log arrives
+		mkp(0, 0, []c17Op{a("3|1"), a("5|1"), p("3|1", "4", 0), x("5|1"), x("3|1"), rp("6", "1", "2"), h("7", "1", "2"), o},
+			[]int{0, 2, 1, 3, 4, 5, 6, 7}),
+		// a report with two keys of different upkeeps, one with two keys of the same upkeep
+		mkp(0, 1, []c17Op{A("10|1", "10|2"), A("11|1", "12|1"), p("10|2", "13", 1), p("12|1", "14", 0), rp("14", "1", "2", "2"), x("10|2", "12|1"), x("10|2")}),
+		// unparsable key in the middle of a report: 10|2 is never registered; minConfirmations -1 is 0
+		mkp(5500, -1, []c17Op{A("10|1", "abc", "10|2"), x("10|2"), x("10|1"), h("11", "1", "2"), o, p("10|1", "11", 0), o, h("12", "1", "2"), o}),
+		// empty registry stages nothing; empty reports are errors
+		mkp(0, 0, []c17Op{h("10", "1"), h("11"), o, A(), x(), o}),
+	}
+	return append(plug, []c17Input{
 		// accept only: pending for every block
 		mk(0, 1, 0, []c17Op{a("10|5")}),
 		// perform at 15: blocks > 15 pass
@@ -636,7 +829,7 @@ func c17Edge() []c17Input {
 		mk(5*c17Second+500_000_013, 0, 8*c17Second, []c17Op{a("10|5"), a("11|6"), p("11|6", "12", 0)}),
 		// stale report at the top of the uint64 range: check+1 is the indefinite key
 		mk(0, 0, 0, []c17Op{a("18446744073709551615|5"), s("18446744073709551615|5", 0)}),
-	}
+	}...)
 }
 
 func TestC17(t *testing.T) {
